@@ -5,13 +5,8 @@
 // uuid field bytes, value splitting, strict parsing of arbitrary bytes of a given length.
 // CBMC needs every buffer LENGTH to be concrete (measured): a serial is therefore taken from one varint width class per
 // harness (the five classes together are all of u32), and arbitrary-bytes parsing uses one harness per frame length.
-use super::{
-    CloseChannelEndReply, CloseChannelEndResult, Connect, CreateObject, MessageDeserializeError, MessageKind,
-    MessageOps, Sync,
-};
-use crate::{ObjectUuid, SerializedValue};
+use super::{CloseChannelEndReply, MessageKind, MessageOps, Sync};
 use bytes::BytesMut;
-use uuid::Uuid;
 
 #[allow(dead_code)]
 fn no_reserve_inner(_this: &mut BytesMut, _additional: usize, _allocate: bool) -> bool {
